@@ -68,6 +68,7 @@ pub fn replay(prop: &str, part: &str, case: &serde_json::Value) -> Option<CaseRe
         ("C05", _) => c05::eval(&sc()?),
         ("C06", "host_drops") => c06::eval_host_drops(&sc()?),
         ("C06", _) => c06::eval(&sc()?),
+        ("C07", "death_before_start") => c07::eval_prestart(&sc()?),
         ("C07", _) => c07::eval(&sc()?),
         ("C08", "decode") => c14::replay("decode", case)?,
         ("C08", _) => c08::eval(&sc()?),
